@@ -1237,7 +1237,13 @@ fn sim_setup(entries: u32, p: *mut Params) -> i64 {
         enters: 0,
         sqpoll_asleep: false,
         enforce_single: ENFORCE_SINGLE_ISSUER.load(Ordering::SeqCst),
-        submitter: None,
+        // as in Linux: the submitter of a single-issuer ring is the thread that creates it, or —
+        // for a ring created disabled — the thread that enables it
+        submitter: if flags & SETUP_SINGLE_ISSUER != 0 && flags & SETUP_R_DISABLED == 0 {
+            Some(unsafe { raw_syscall(libc::SYS_gettid, 0, 0, 0, 0, 0, 0) })
+        } else {
+            None
+        },
         sqpoll_eager: SQPOLL_EAGER.load(Ordering::SeqCst),
     };
     with_sim(|s| {
@@ -2207,6 +2213,9 @@ fn sim_register(fd: i32, op: u32, arg: usize, nr: u32) -> i64 {
                         break 'ret -(libc::EBADFD as i64);
                     }
                     ring.enabled = true;
+                    if ring.flags & SETUP_SINGLE_ISSUER != 0 {
+                        ring.submitter = Some(unsafe { raw_syscall(libc::SYS_gettid, 0, 0, 0, 0, 0, 0) });
+                    }
                     0
                 }
                 REGISTER_FILES2 => {
